@@ -73,9 +73,9 @@ var checks = []checkDef{
 		Rule: layerARule, StateMeasure: layerAStates, Assumptions: layerAAssume, RealStub: layerAReal,
 		MustProbe: []string{"attempt_in_teardown_window", "attempt_in_shutdown", "refused_refuse", "teardown_window_entered", "refused_over_http", "refused_upload_keeps_going"}},
 	{ID: "C02", Engine: "brokersim", Level: "exploration", QuickMS: 40000, ThoroughMS: 600000, SelftestRuns: 200,
-		Also: []also{{Engine: "hsrvsim", Workers: 3, Why: "the same property observed through the real net/http server, chunked encoding and TLS (refused attempts end at once and get nothing, lines reach the client at the quiescent point, output displayed byte-exact, peer stream ended)"}, {Engine: "termsim", Workers: 2, Why: "typed lines and Ctrl+I inserts (multi-line payload as exactly one entry) through the real line editor onto the input channel"}},
+		Also: []also{{Engine: "hsrvsim", Workers: 3, Why: "the same property observed through the real net/http server, chunked encoding and TLS (refused attempts end at once and get nothing, lines reach the client at the quiescent point, output displayed byte-exact, peer stream ended)"}, {Engine: "termsim", Workers: 2, Why: "typed lines and Ctrl+I inserts (multi-line payload as exactly one entry) through the real line editor onto the input channel, with a Ctrl+I source that can be slow, fail or be empty and changes between key presses (an insert whose source was readable throughout must arrive in its place, one whose source failed throughout must not arrive, anything else may or may not)"}},
 		Rule: layerARule, StateMeasure: layerAStates, Assumptions: layerAAssume, RealStub: layerAReal,
-		MustProbe: []string{"lines_delivered", "line_lost_to_own_error", "line_64k", "line_multiline", "write_err", "flush_err", "write_short", "lines_over_http", "conn_reset_with_lines_in_flight", "ctrl_i", "input_channel_drained", "insert_source_err"}},
+		MustProbe: []string{"lines_delivered", "line_lost_to_own_error", "line_64k", "line_multiline", "write_err", "flush_err", "write_short", "lines_over_http", "conn_reset_with_lines_in_flight", "ctrl_i", "input_channel_drained", "insert_source_err", "insert_source_slow", "failed_insert_behind_slow_insert", "line_typed_behind_slow_insert"}},
 	{ID: "C03", Engine: "brokersim", Level: "exploration", QuickMS: 40000, ThoroughMS: 600000, SelftestRuns: 200,
 		Also: []also{{Engine: "hsrvsim", Workers: 4, Why: "the same property observed through the real net/http server, chunked encoding and TLS (refused attempts end at once and get nothing, lines reach the client at the quiescent point, output displayed byte-exact, peer stream ended)"}, {Engine: "termsim", Workers: 2, Why: "shell output on the operator's terminal itself: each chunk written byte for byte in one piece, nothing held back (incomplete UTF-8 tails, control bytes)"}},
 		Rule: layerARule, StateMeasure: layerAStates, Assumptions: layerAAssume, RealStub: layerAReal,
